@@ -26,6 +26,9 @@ def unwrap(lit):
 def flatten(v):
     if isinstance(v, dict) and '$tuple' in v:
         v = v['$tuple']
+    if isinstance(v, dict) and '$npscalar' in v:
+        import numpy as np
+        return [np.dtype(v['$npscalar'][0]).type(v['$npscalar'][1]).item()]
     if isinstance(v, list):
         out = []
         for x in v:
